@@ -86,7 +86,8 @@ add("C12",
     Mutant("H9 exclusion compares items (seeded C12-A)",
            (U + "get_hwires.py", "                        x for x in _get_hpins_from_hwire(hwire_outside) if x != hpin", "                        x for x in _get_hpins_from_hwire(hwire_outside) if x.item is not hpin.item"),
            "_get_hwires_from_hpins|"),
-    Mutant("H10 owning instance overwritten in the pin loop (seeded C12-B)",
+    Mutant("twin (equivalent): owning-instance variable reused for the sub-instance in the pin loop — the closure re-derives the "
+           "port pins from the wire, so the result is unchanged (ported seed C12-B; see DESIGN)",
            (U + "get_hwires.py", """                            href_sub_inst = HRef.from_parent_and_item(
                                 href_inst, pin.instance
                             )
@@ -97,7 +98,7 @@ add("C12",
                             )
                             inner_pin = pin.inner_pin
                             port = inner_pin.port
-                            href_port = HRef.from_parent_and_item(href_inst, port)"""), "href_inst overwritten"),
+                            href_port = HRef.from_parent_and_item(href_inst, port)"""), None),
     Mutant("twin: rename a local reference variable",
            (U + "get_hwires.py", """            hport = hpin.parent
             hinst = hport.parent
